@@ -257,7 +257,7 @@ Proof.
       destruct (Qc_eq_dec (s 1%nat) (s (S (S q)))) as [A|A].
       * rewrite (Z1 A).
         destruct (Qc_eq_dec (s 0%nat) (s (S (S q)))) as [B|B].
-        -- rewrite (Z0 ltac:(qo)). ring.
+        -- rewrite (Z0 ltac:(qo)). unfold Qcdiv. ring.
         -- unfold Qcdiv. generalize (/ (s (S q) - s 0%nat)) (/ (s (S (S (S q))) - s 2%nat))
                                     (/ (s (S (S (S q))) - s 1%nat)) (/ (s (S (S q)) - s 1%nat)).
            intros. field. apply Qcsub_neq0. congruence.
@@ -269,7 +269,7 @@ Proof.
       destruct (Qc_eq_dec (s 1%nat) (s (S (S q)))) as [A|A].
       * rewrite (Z1 A).
         destruct (Qc_eq_dec (s 1%nat) (s (S (S (S q))))) as [B|B].
-        -- rewrite (Z2 ltac:(qo)). ring.
+        -- rewrite (Z2 ltac:(qo)). unfold Qcdiv. ring.
         -- unfold Qcdiv. generalize (/ (s (S q) - s 0%nat)) (/ (s (S (S (S q))) - s 2%nat))
                                     (/ (s (S (S q)) - s 0%nat)) (/ (s (S (S q)) - s 1%nat)).
            intros. field. apply Qcsub_neq0. congruence.
@@ -279,7 +279,702 @@ Proof.
       rewrite (remove_at_ge s m (S q)) by lia. rewrite (remove_at_lt s m 1) by lia.
       rewrite (L0 ltac:(lia)), (L1 ltac:(lia)).
       destruct (Qc_eq_dec (s 1%nat) (s (S (S q)))) as [A|A].
-      * rewrite (Z1 A). ring.
+      * rewrite (Z1 A). unfold Qcdiv. ring.
       * unfold Qcdiv. generalize (/ (s (S q) - s 0%nat)) (/ (s (S (S (S q))) - s 2%nat)).
         intros. field. repeat split; apply Qcsub_neq0; intro; qo.
+Qed.
+
+(* ------------------------------------------------------------------ *)
+(* the knot vector after insertion *)
+Lemma nth_firstn_skipn (l : list Qc) n j :
+  nth j l 0 = if (j <? n)%nat then nth j (firstn n l) 0 else nth (j - n) (skipn n l) 0.
+Proof.
+  destruct (Nat.le_gt_cases (length l) n) as [L|L].
+  - rewrite firstn_all2 by exact L. rewrite skipn_all2 by exact L.
+    destruct (Nat.ltb_spec j n); [reflexivity|].
+    rewrite nth_overflow by lia. destruct (j - n)%nat; reflexivity.
+  - rewrite <- (firstn_skipn n l) at 1.
+    assert (length (firstn n l) = n) by (apply firstn_length_le; lia).
+    destruct (Nat.ltb_spec j n).
+    + apply app_nth1. lia.
+    + rewrite app_nth2 by lia. rewrite H. reflexivity.
+Qed.
+
+Lemma length_insert_at kv k u : length (insert_at kv k u) = S (length kv).
+Proof.
+  unfold insert_at. rewrite app_length. cbn [length]. rewrite firstn_length, skipn_length. lia.
+Qed.
+
+Lemma kn_ins_le kv k u j : (S k <= length kv)%nat -> (j <= k)%nat -> kn (insert_at kv k u) j = kn kv j.
+Proof.
+  intros Hk Hj. unfold kn, insert_at.
+  assert (length (firstn (S k) kv) = S k) by (apply firstn_length_le; lia).
+  rewrite app_nth1 by lia. rewrite (nth_firstn_skipn kv (S k) j).
+  destruct (Nat.ltb_spec j (S k)); [reflexivity|lia].
+Qed.
+
+Lemma kn_ins_eq kv k u : (S k <= length kv)%nat -> kn (insert_at kv k u) (S k) = u.
+Proof.
+  intros Hk. unfold kn, insert_at.
+  assert (length (firstn (S k) kv) = S k) by (apply firstn_length_le; lia).
+  rewrite app_nth2 by lia. rewrite H. rewrite Nat.sub_diag. reflexivity.
+Qed.
+
+Lemma kn_ins_gt kv k u j : (S k <= length kv)%nat -> (k < j)%nat -> kn (insert_at kv k u) (S j) = kn kv j.
+Proof.
+  intros Hk Hj. unfold kn, insert_at.
+  assert (length (firstn (S k) kv) = S k) by (apply firstn_length_le; lia).
+  rewrite app_nth2 by lia. rewrite H.
+  replace (S j - S k)%nat with (S (j - S k)) by lia. cbn [nth].
+  rewrite (nth_firstn_skipn kv (S k) j).
+  destruct (Nat.ltb_spec j (S k)); [lia|reflexivity].
+Qed.
+
+Section Insertion.
+  Variables (kv : list Qc) (p k : nat) (u : Qc).
+  Hypothesis Hsorted : sorted kv.
+  Hypothesis Hk : (S (S k) <= length kv)%nat.
+  Hypothesis Hlo : kn kv k <= u.
+  Hypothesis Hhi : u <= kn kv (S k).
+
+  Let kv' := insert_at kv k u.
+  Let L := kn kv (length kv - 1).
+
+  Lemma ins_last : kn kv' (length kv' - 1) = L.
+  Proof.
+    unfold kv'. rewrite length_insert_at.
+    replace (S (length kv) - 1)%nat with (S (length kv - 1)) by lia.
+    apply kn_ins_gt; lia.
+  Qed.
+
+  Lemma ins_sorted_step j : (S j < length kv')%nat -> kn kv' j <= kn kv' (S j).
+  Proof.
+    unfold kv'. rewrite length_insert_at. intros Hj.
+    destruct (Nat.lt_trichotomy j k) as [A|[A|A]].
+    - rewrite !kn_ins_le by lia. apply Hsorted; lia.
+    - subst j. rewrite kn_ins_le by lia. rewrite kn_ins_eq by lia. exact Hlo.
+    - destruct (Nat.eq_dec j (S k)) as [->|B].
+      + rewrite kn_ins_eq by lia. rewrite kn_ins_gt by lia. exact Hhi.
+      + destruct j as [|j']; [lia|]. rewrite !kn_ins_gt by lia. apply Hsorted; lia.
+  Qed.
+
+  Lemma ins_le_last j : (j < length kv')%nat -> kn kv' j <= L.
+  Proof.
+    unfold kv'. rewrite length_insert_at. intros Hj. unfold L.
+    destruct (Nat.le_gt_cases j k) as [A|A].
+    - rewrite kn_ins_le by lia. apply Hsorted; lia.
+    - destruct (Nat.eq_dec j (S k)) as [->|B].
+      + rewrite kn_ins_eq by lia. eapply Qcle_trans; [exact Hhi|]. apply Hsorted; lia.
+      + destruct j as [|j']; [lia|]. rewrite kn_ins_gt by lia. apply Hsorted; lia.
+  Qed.
+
+  Lemma ins_zero i x :
+    (i + p + 1 < length kv')%nat -> kn kv' i = kn kv' (i + p + 1)%nat ->
+    NF (kn kv') L p i x = 0.
+  Proof.
+    intros Hi He. apply NF_zero; [|exact He].
+    intros j Hj. replace (i + S j)%nat with (S (i + j)) by lia. apply ins_sorted_step. lia.
+  Qed.
+
+  (* Boehm: column i of the knot insertion matrix *)
+  Lemma ki_column i x :
+    (i + p + 1 < length kv)%nat ->
+    Nref kv p i x =
+      ki_coef kv p k u i * Nref kv' p i x + (1 - ki_coef kv p k u (S i)) * Nref kv' p (S i) x.
+  Proof.
+    intros Hi. rewrite !Nref_NF. rewrite ins_last. fold L.
+    assert (Hlen : length kv' = S (length kv)) by apply length_insert_at.
+    unfold ki_coef.
+    destruct (Nat.leb_spec (i + p) k) as [C1|C1].
+    - destruct (Nat.leb_spec (S i + p) k) as [C2|C2].
+      + (* untouched, left of the new knot *)
+        rewrite (NF_ext L p (kn kv) (kn kv') i i x).
+        * ring.
+        * intros j Hj. unfold kv'. rewrite kn_ins_le by lia. reflexivity.
+      + (* i + p = k : the new knot is the last knot of the fine function i *)
+        assert (Ek : k = (i + p)%nat) by lia.
+        set (s := fun j => kn kv' (i + j)%nat).
+        assert (E0 : NF (kn kv) L p i x = NF (remove_at s (S p)) L p 0 x).
+        { apply NF_ext. intros j Hj. cbn [Nat.add]. unfold remove_at, s.
+          destruct (Nat.ltb_spec j (S p)).
+          - unfold kv'. rewrite kn_ins_le by lia. reflexivity.
+          - replace (i + S j)%nat with (S (i + j)) by lia. unfold kv'. rewrite kn_ins_gt by lia. reflexivity. }
+        assert (E1 : NF s L p 0 x = NF (kn kv') L p i x) by (apply NF_ext; intros; reflexivity).
+        assert (E2 : NF s L p 1 x = NF (kn kv') L p (S i) x).
+        { apply NF_ext. intros j Hj. unfold s. f_equal. lia. }
+        rewrite E0. rewrite boehm_local.
+        2:{ intros j Hj. unfold s. replace (i + S j)%nat with (S (i + j)) by lia. apply ins_sorted_step. lia. }
+        2:{ intros j Hj. unfold s. apply ins_le_last. lia. }
+        2:{ lia. }
+        rewrite E1, E2. unfold s.
+        replace (i + S p)%nat with (S k) by lia. replace (i + S (S p))%nat with (S (S k)) by lia.
+        rewrite Nat.add_0_r. unfold kv'.
+        rewrite kn_ins_eq by lia. rewrite (kn_ins_gt kv k u (S k)) by lia.
+        rewrite (kn_ins_le kv k u i) by lia. fold kv'.
+        assert (Zi : u = kn kv i -> NF (kn kv') L p i x = 0).
+        { intro E. apply ins_zero; [lia|]. unfold kv'. rewrite kn_ins_le by lia.
+          replace (i + p + 1)%nat with (S k) by lia. rewrite kn_ins_eq by lia. congruence. }
+        destruct (Nat.leb_spec (S i) k) as [C3|C3].
+        * (* p >= 1 *)
+          replace (i + 1)%nat with (S i) by lia. unfold kv'. rewrite (kn_ins_le kv k u (S i)) by lia. fold kv'.
+          unfold ki_alpha. replace (S i + p)%nat with (S k) by lia.
+          assert (Zs : kn kv (S k) = kn kv (S i) -> NF (kn kv') L p (S i) x = 0).
+          { intro E. apply ins_zero; [lia|]. unfold kv'. rewrite kn_ins_le by lia.
+            replace (S i + p + 1)%nat with (S (S k)) by lia. rewrite kn_ins_gt by lia. congruence. }
+          destruct (Qc_eq_dec u (kn kv i)) as [A|A]; destruct (Qc_eq_dec (kn kv (S k)) (kn kv (S i))) as [B|B].
+          -- rewrite (Zi A), (Zs B). unfold Qcdiv. ring.
+          -- rewrite (Zi A). rewrite !Qcmult_0_r. field. apply Qcsub_neq0. exact B.
+          -- rewrite (Zs B). rewrite !Qcmult_0_r. field. apply Qcsub_neq0. exact A.
+          -- field. split; apply Qcsub_neq0; assumption.
+        * (* p = 0 *)
+          assert (Hp0 : p = 0%nat) by lia. replace (i + 1)%nat with (S k) by lia.
+          unfold kv'. rewrite kn_ins_eq by lia. fold kv'.
+          assert (Zs : kn kv (S k) = u -> NF (kn kv') L p (S i) x = 0).
+          { intro E. apply ins_zero; [lia|]. unfold kv'. replace (S i) with (S k) by lia.
+            rewrite kn_ins_eq by lia. replace (S k + p + 1)%nat with (S (S k)) by lia.
+            rewrite kn_ins_gt by lia. congruence. }
+          destruct (Qc_eq_dec u (kn kv i)) as [A|A]; destruct (Qc_eq_dec (kn kv (S k)) u) as [B|B].
+          -- rewrite (Zi A), (Zs B). unfold Qcdiv. ring.
+          -- rewrite (Zi A). rewrite !Qcmult_0_r. field. apply Qcsub_neq0. exact B.
+          -- rewrite (Zs B). rewrite !Qcmult_0_r. field. apply Qcsub_neq0. exact A.
+          -- field. split; apply Qcsub_neq0; assumption.
+    - destruct (Nat.leb_spec i k) as [C2|C2].
+      + (* i <= k < i + p : the new knot is interior to the support of function i *)
+        destruct (Nat.leb_spec (S i + p) k) as [C0|_]; [lia|].
+        set (s := fun j => kn kv' (i + j)%nat).
+        set (m := (S k - i)%nat).
+        assert (E0 : NF (kn kv) L p i x = NF (remove_at s m) L p 0 x).
+        { apply NF_ext. intros j Hj. cbn [Nat.add]. unfold remove_at, s, m.
+          destruct (Nat.ltb_spec j (S k - i)).
+          - unfold kv'. rewrite kn_ins_le by lia. reflexivity.
+          - replace (i + S j)%nat with (S (i + j)) by lia. unfold kv'. rewrite kn_ins_gt by lia. reflexivity. }
+        assert (E1 : NF s L p 0 x = NF (kn kv') L p i x) by (apply NF_ext; intros; reflexivity).
+        assert (E2 : NF s L p 1 x = NF (kn kv') L p (S i) x).
+        { apply NF_ext. intros j Hj. unfold s. f_equal. lia. }
+        rewrite E0. rewrite boehm_local.
+        2:{ intros j Hj. unfold s. replace (i + S j)%nat with (S (i + j)) by lia. apply ins_sorted_step. lia. }
+        2:{ intros j Hj. unfold s. apply ins_le_last. lia. }
+        2:{ unfold m. lia. }
+        rewrite E1, E2. unfold s, m.
+        replace (i + (S k - i))%nat with (S k) by lia.
+        replace (i + S p)%nat with (S (i + p)) by lia. replace (i + S (S p))%nat with (S (S (i + p))) by lia.
+        rewrite Nat.add_0_r. unfold kv'.
+        rewrite kn_ins_eq by lia. rewrite (kn_ins_gt kv k u (i + p)) by lia.
+        rewrite (kn_ins_gt kv k u (S (i + p))) by lia.
+        rewrite (kn_ins_le kv k u i) by lia. fold kv'.
+        unfold ki_alpha at 1.
+        destruct (Nat.leb_spec (S i) k) as [C3|C3].
+        * replace (i + 1)%nat with (S i) by lia. unfold kv'. rewrite (kn_ins_le kv k u (S i)) by lia. fold kv'.
+          unfold ki_alpha. replace (S i + p)%nat with (S (i + p)) by lia.
+          assert (Zs : kn kv (S (i + p)) = kn kv (S i) -> NF (kn kv') L p (S i) x = 0).
+          { intro E. apply ins_zero; [lia|]. unfold kv'. rewrite kn_ins_le by lia.
+            replace (S i + p + 1)%nat with (S (S (i + p))) by lia. rewrite kn_ins_gt by lia. congruence. }
+          destruct (Qc_eq_dec (kn kv (S (i + p))) (kn kv (S i))) as [B|B].
+          -- rewrite (Zs B). unfold Qcdiv. ring.
+          -- unfold Qcdiv. generalize (/ (kn kv (i + p) - kn kv i)). intros. field. apply Qcsub_neq0. exact B.
+        * assert (i = k) by lia. subst i. replace (k + 1)%nat with (S k) by lia.
+          unfold kv'. rewrite kn_ins_eq by lia. fold kv'.
+          assert (Zs : kn kv (S (k + p)) = u -> NF (kn kv') L p (S k) x = 0).
+          { intro E. apply ins_zero; [lia|]. unfold kv'. rewrite kn_ins_eq by lia.
+            replace (S k + p + 1)%nat with (S (S (k + p))) by lia. rewrite kn_ins_gt by lia. congruence. }
+          destruct (Qc_eq_dec (kn kv (S (k + p))) u) as [B|B].
+          -- rewrite (Zs B). unfold Qcdiv. ring.
+          -- unfold Qcdiv. generalize (/ (kn kv (k + p) - kn kv k)). intros. field. apply Qcsub_neq0. exact B.
+      + (* right of the new knot: shifted by one *)
+        destruct (Nat.leb_spec (S i + p) k) as [C0|_]; [lia|].
+        destruct (Nat.leb_spec (S i) k) as [C0|_]; [lia|].
+        rewrite (NF_ext L p (kn kv) (kn kv') i (S i) x).
+        * ring.
+        * intros j Hj. cbn [Nat.add]. unfold kv'. rewrite kn_ins_gt by lia. reflexivity.
+  Qed.
+End Insertion.
+
+(* ------------------------------------------------------------------ *)
+(* finite sums *)
+Lemma bigsum_ext n f g : (forall j, (j < n)%nat -> f j = g j) -> bigsum n f = bigsum n g.
+Proof.
+  induction n as [|n IH]; intros H; [reflexivity|]. cbn [bigsum].
+  rewrite IH by (intros; apply H; lia). rewrite H by lia. reflexivity.
+Qed.
+
+Lemma bigsum_zero n f : (forall j, (j < n)%nat -> f j = 0) -> bigsum n f = 0.
+Proof.
+  induction n as [|n IH]; intros H; [reflexivity|]. cbn [bigsum].
+  rewrite IH by (intros; apply H; lia). rewrite H by lia. ring.
+Qed.
+
+Lemma bigsum_plus n f g : bigsum n (fun j => f j + g j) = bigsum n f + bigsum n g.
+Proof. induction n as [|n IH]; cbn [bigsum]; [ring|rewrite IH; ring]. Qed.
+
+Lemma bigsum_scale n c f : bigsum n (fun j => c * f j) = c * bigsum n f.
+Proof. induction n as [|n IH]; cbn [bigsum]; [ring|rewrite IH; ring]. Qed.
+
+Lemma bigsum_scale_r n c f : bigsum n (fun j => f j * c) = bigsum n f * c.
+Proof. induction n as [|n IH]; cbn [bigsum]; [ring|rewrite IH; ring]. Qed.
+
+Lemma bigsum_swap n m (f : nat -> nat -> Qc) :
+  bigsum n (fun j => bigsum m (fun l => f j l)) = bigsum m (fun l => bigsum n (fun j => f j l)).
+Proof.
+  induction n as [|n IH]; cbn [bigsum].
+  - symmetry. apply bigsum_zero. reflexivity.
+  - rewrite IH. rewrite <- bigsum_plus. reflexivity.
+Qed.
+
+Lemma bigsum_one n f i : (i < n)%nat -> (forall j, (j < n)%nat -> j <> i -> f j = 0) -> bigsum n f = f i.
+Proof.
+  induction n as [|n IH]; intros Hi H; [lia|]. cbn [bigsum].
+  destruct (Nat.eq_dec i n) as [->|Hn].
+  - rewrite bigsum_zero by (intros; apply H; lia). ring.
+  - rewrite IH by (try lia; intros; apply H; lia). rewrite (H n) by lia. ring.
+Qed.
+
+Lemma bigsum_two n f i : (S i < n)%nat ->
+  (forall j, (j < n)%nat -> j <> i -> j <> S i -> f j = 0) -> bigsum n f = f i + f (S i).
+Proof.
+  induction n as [|n IH]; intros Hi H; [lia|]. cbn [bigsum].
+  destruct (Nat.eq_dec (S i) n) as [E|Hn].
+  - subst n. rewrite (bigsum_one (S i) f i) by (try lia; intros; apply H; lia). reflexivity.
+  - rewrite IH by (try lia; intros; apply H; lia). rewrite (H n) by lia. ring.
+Qed.
+
+Lemma bigsum_nonneg n f : (forall j, (j < n)%nat -> 0 <= f j) -> 0 <= bigsum n f.
+Proof.
+  induction n as [|n IH]; intros H; cbn [bigsum]; [apply Qcle_refl|].
+  pose proof (IH ltac:(intros; apply H; lia)). pose proof (H n ltac:(lia)).
+  replace 0 with (0 + 0) by ring. apply Qcplus_le_compat; assumption.
+Qed.
+
+(* ------------------------------------------------------------------ *)
+(* the assignment-list matrix *)
+Lemma lookup_in (l : asg) j i v :
+  (forall e e', In e l -> In e' l -> fst e = fst e' -> snd e = snd e') ->
+  In (j, i, v) l -> lookup l j i = v.
+Proof.
+  intros Hf Hin. unfold lookup. destruct (find (at_pos j i) (rev l)) as [e|] eqn:E.
+  - apply find_some in E. destruct E as [E1 E2]. apply in_rev in E1.
+    unfold at_pos in E2. apply andb_prop in E2. destruct E2 as [A B].
+    apply Nat.eqb_eq in A, B.
+    apply (Hf e (j, i, v) E1 Hin). destruct e as [[a b] c]. cbn in *. congruence.
+  - exfalso. pose proof (find_none _ _ E (j, i, v)) as N.
+    rewrite <- in_rev in N. specialize (N Hin). unfold at_pos in N. cbn in N.
+    rewrite !Nat.eqb_refl in N. discriminate.
+Qed.
+
+Lemma lookup_notin (l : asg) j i :
+  (forall e, In e l -> fst e <> (j, i)) -> lookup l j i = 0.
+Proof.
+  intros H. unfold lookup. destruct (find (at_pos j i) (rev l)) as [e|] eqn:E; [|reflexivity].
+  exfalso. apply find_some in E. destruct E as [E1 E2]. apply in_rev in E1.
+  apply (H e E1). unfold at_pos in E2. apply andb_prop in E2. destruct E2 as [A B].
+  apply Nat.eqb_eq in A, B. destruct e as [[a b] c]. cbn in *. congruence.
+Qed.
+
+Lemma ki_in kv p k u e :
+  In e (knot_insertion_at kv p k u) <->
+    (exists a, (a < k - p + 1)%nat /\ e = (a, a, 1))
+    \/ (exists a, (k + 1 <= a < numdofs kv p + 1)%nat /\ e = (a, (a - 1)%nat, 1))
+    \/ (exists a, (k - p + 1 <= a < k + 1)%nat /\
+                  (e = (a, (a - 1)%nat, 1 - ki_alpha kv p u a) \/ e = (a, a, ki_alpha kv p u a))).
+Proof.
+  unfold knot_insertion_at. rewrite !in_app_iff, !in_map_iff, in_flat_map. split.
+  - intros [[a [E H]]|[[a [E H]]|[a [H E]]]].
+    + left. exists a. apply in_seq in H. split; [lia|congruence].
+    + right; left. exists a. apply in_seq in H. split; [lia|congruence].
+    + right; right. exists a. apply in_rev in H. apply in_seq in H. split; [lia|].
+      cbn in E. destruct E as [E|[E|[]]]; [left|right]; congruence.
+  - intros [[a [H ->]]|[[a [H ->]]|[a [H E]]]].
+    + left. exists a. split; [reflexivity|]. apply in_seq. lia.
+    + right; left. exists a. split; [reflexivity|]. apply in_seq. lia.
+    + right; right. exists a. split.
+      * rewrite <- in_rev. apply in_seq. lia.
+      * cbn. destruct E as [->| ->]; auto.
+Qed.
+
+Lemma ki_functional kv p k u e e' :
+  In e (knot_insertion_at kv p k u) -> In e' (knot_insertion_at kv p k u) ->
+  fst e = fst e' -> snd e = snd e'.
+Proof.
+  intros H H'. apply ki_in in H, H'.
+  destruct H as [[a [Ha ->]]|[[a [Ha ->]]|[a [Ha [->| ->]]]]];
+  destruct H' as [[b [Hb ->]]|[[b [Hb ->]]|[b [Hb [->| ->]]]]];
+  cbn [fst snd]; intro E; injection E as E1 E2; try lia; try (subst; reflexivity);
+  try (assert (a = b) by lia; subst; reflexivity).
+Qed.
+
+Lemma ki_lookup kv p k u j i :
+  (p <= k)%nat -> (k < numdofs kv p)%nat -> (i < numdofs kv p)%nat -> (j < S (numdofs kv p))%nat ->
+  lookup (knot_insertion_at kv p k u) j i = ki_entry kv p k u j i.
+Proof.
+  intros Hp Hk Hi Hj. unfold ki_entry, ki_coef.
+  destruct (Nat.eqb_spec j i) as [->|Nji].
+  - destruct (Nat.leb_spec (i + p) k) as [C1|C1]; [|destruct (Nat.leb_spec i k) as [C2|C2]].
+    + apply lookup_in; [apply ki_functional|]. apply ki_in. left. exists i. split; [lia|reflexivity].
+    + apply lookup_in; [apply ki_functional|]. apply ki_in. right; right. exists i. split; [lia|]. right; reflexivity.
+    + apply lookup_notin. intros e He. apply ki_in in He.
+      destruct He as [[a [Ha ->]]|[[a [Ha ->]]|[a [Ha [->| ->]]]]]; cbn [fst]; intro E; injection E as E1 E2; lia.
+  - destruct (Nat.eqb_spec j (S i)) as [->|Nji'].
+    + destruct (Nat.leb_spec (S i + p) k) as [C1|C1]; [|destruct (Nat.leb_spec (S i) k) as [C2|C2]].
+      * replace (1 - 1) with 0 by ring.
+        apply lookup_notin. intros e He. apply ki_in in He.
+        destruct He as [[a [Ha ->]]|[[a [Ha ->]]|[a [Ha [->| ->]]]]]; cbn [fst]; intro E; injection E as E1 E2; lia.
+      * apply lookup_in; [apply ki_functional|]. apply ki_in. right; right. exists (S i). split; [lia|]. left.
+        replace (S i - 1)%nat with i by lia. reflexivity.
+      * replace (1 - 0) with 1 by ring.
+        apply lookup_in; [apply ki_functional|]. apply ki_in. right; left. exists (S i). split; [lia|].
+        replace (S i - 1)%nat with i by lia. reflexivity.
+    + apply lookup_notin. intros e He. apply ki_in in He.
+      destruct He as [[a [Ha ->]]|[[a [Ha ->]]|[a [Ha [->| ->]]]]]; cbn [fst]; intro E; injection E as E1 E2; lia.
+Qed.
+
+(* ------------------------------------------------------------------ *)
+(* knot insertion preserves the function *)
+Lemma numdofs_lt kv p i : (i < numdofs kv p)%nat <-> (i + p + 1 < length kv)%nat.
+Proof. unfold numdofs. lia. Qed.
+
+Lemma knot_insertion_preserves_l kv p u i x :
+  kv_ok kv p -> kn kv 0 <= u -> u <= kn kv (length kv - 1) -> (i < numdofs kv p)%nat ->
+  Nref kv p i x =
+    bigsum (S (numdofs kv p))
+           (fun j => lookup (knot_insertion kv p u) j i * Nref (insert_knot kv p u) p j x).
+Proof.
+  intros Hok Hu0 Hu1 Hi.
+  destruct (findspan_spec_l kv p u Hok Hu0 Hu1) as [A [B [C [D E]]]].
+  unfold knot_insertion, insert_knot. set (k := findspan kv p u) in *.
+  pose proof (ok_len _ _ Hok) as Hlen.
+  assert (Hhi : u <= kn kv (S k)).
+  { destruct E as [E|[E1 E2]]; [qo|]. rewrite E2, E1. apply Qcle_refl. }
+  rewrite (ki_column kv p k u (ok_sorted _ _ Hok) ltac:(lia) D Hhi i x) by (apply numdofs_lt; exact Hi).
+  rewrite (bigsum_two _ _ i).
+  - rewrite !ki_lookup by (unfold numdofs in *; lia). unfold ki_entry.
+    rewrite Nat.eqb_refl. destruct (Nat.eqb_spec (S i) i); [lia|]. rewrite Nat.eqb_refl. reflexivity.
+  - lia.
+  - intros j Hj N1 N2. rewrite ki_lookup by (unfold numdofs in *; lia). unfold ki_entry.
+    destruct (Nat.eqb_spec j i); [lia|]. destruct (Nat.eqb_spec j (S i)); [lia|]. ring.
+Qed.
+
+(* ------------------------------------------------------------------ *)
+(* rows sum to one, entries are non-negative *)
+Lemma Qcinv_pos (b : Qc) : 0 < b -> 0 < / b.
+Proof.
+  intros H. unfold Qclt in *. cbn. rewrite Qred_correct. apply Qinv_lt_0_compat. exact H.
+Qed.
+
+Lemma Qcdiv_nonneg (a b : Qc) : 0 <= a -> 0 < b -> 0 <= a / b.
+Proof.
+  intros Ha Hb. unfold Qcdiv. replace 0 with (0 * / b) by ring.
+  apply Qcmult_le_compat_r; [exact Ha|]. apply Qclt_le_weak. apply Qcinv_pos. exact Hb.
+Qed.
+
+Lemma Qc01 : 0 <= 1.
+Proof. unfold Qcle, Qle. cbn. lia. Qed.
+Lemma sub_nonneg (a b : Qc) : b <= a -> 0 <= a - b.
+Proof. intros H. unfold Qcminus. apply (proj1 (Qcle_minus_iff b a)). exact H. Qed.
+Lemma sub_pos (a b : Qc) : b < a -> 0 < a - b.
+Proof. intros H. unfold Qcminus. apply (proj1 (Qclt_minus_iff b a)). exact H. Qed.
+
+Lemma ki_coef_range kv p k u i :
+  sorted kv -> (S k < length kv)%nat -> kn kv k < kn kv (S k) -> kn kv k <= u -> u <= kn kv (S k) ->
+  (i + p < length kv)%nat ->
+  0 <= ki_coef kv p k u i /\ 0 <= 1 - ki_coef kv p k u i.
+Proof.
+  intros Hs Hk Hne Hlo Hhi Hi. unfold ki_coef.
+  destruct (Nat.leb_spec (i + p) k) as [C1|C1]; [|destruct (Nat.leb_spec i k) as [C2|C2]].
+  - split; [apply Qc01|]. replace (1 - 1) with 0 by ring. apply Qcle_refl.
+  - assert (A : kn kv i <= kn kv k) by (apply Hs; lia).
+    assert (B : kn kv (S k) <= kn kv (i + p)) by (apply Hs; lia).
+    unfold ki_alpha. split.
+    + apply Qcdiv_nonneg; [apply sub_nonneg|apply sub_pos]; qo.
+    + replace (1 - (u - kn kv i) / (kn kv (i + p) - kn kv i))
+        with ((kn kv (i + p) - u) / (kn kv (i + p) - kn kv i)).
+      * apply Qcdiv_nonneg; [apply sub_nonneg|apply sub_pos]; qo.
+      * field. apply Qcsub_neq0. intro E. qo.
+  - split; [apply Qcle_refl|]. replace (1 - 0) with 1 by ring. apply Qc01.
+Qed.
+
+Lemma ki_entry_nonneg kv p k u j i :
+  sorted kv -> (S k < length kv)%nat -> kn kv k < kn kv (S k) -> kn kv k <= u -> u <= kn kv (S k) ->
+  (i < numdofs kv p)%nat -> 0 <= ki_entry kv p k u j i.
+Proof.
+  intros Hs Hk Hne Hlo Hhi Hi. unfold ki_entry. unfold numdofs in Hi.
+  destruct (Nat.eqb_spec j i); [|destruct (Nat.eqb_spec j (S i))].
+  - apply (ki_coef_range kv p k u i); auto. lia.
+  - apply (ki_coef_range kv p k u (S i)); auto. lia.
+  - apply Qcle_refl.
+Qed.
+
+Lemma ki_row_sum kv p k u j :
+  (p <= k)%nat -> (k < numdofs kv p)%nat -> (j < S (numdofs kv p))%nat ->
+  bigsum (numdofs kv p) (fun i => ki_entry kv p k u j i) = 1.
+Proof.
+  intros Hp Hk Hj. set (n := numdofs kv p) in *. unfold ki_entry.
+  destruct j as [|j'].
+  - rewrite (bigsum_one n _ 0%nat); [|lia|].
+    + cbn. unfold ki_coef. destruct (Nat.leb_spec (0 + p) k); [reflexivity|lia].
+    + intros j Hj' N. destruct (Nat.eqb_spec 0 j); [lia|]. destruct (Nat.eqb_spec 0 (S j)); [lia|reflexivity].
+  - destruct (Nat.eq_dec (S j') n) as [E|N].
+    + rewrite (bigsum_one n _ j'); [|lia|].
+      * destruct (Nat.eqb_spec (S j') j'); [lia|]. rewrite Nat.eqb_refl.
+        unfold ki_coef. destruct (Nat.leb_spec (S j' + p) k); [lia|]. destruct (Nat.leb_spec (S j') k); [lia|]. ring.
+      * intros j Hj' N. destruct (Nat.eqb_spec (S j') j); [lia|]. destruct (Nat.eqb_spec (S j') (S j)); [lia|reflexivity].
+    + rewrite (bigsum_two n _ j'); [|lia|].
+      * destruct (Nat.eqb_spec (S j') j'); [lia|]. rewrite !Nat.eqb_refl. ring.
+      * intros j Hj' N1 N2. destruct (Nat.eqb_spec (S j') j); [lia|]. destruct (Nat.eqb_spec (S j') (S j)); [lia|reflexivity].
+Qed.
+
+Lemma knot_insertion_rows_sum_one_l kv p u j :
+  kv_ok kv p -> kn kv 0 <= u -> u <= kn kv (length kv - 1) -> (j < S (numdofs kv p))%nat ->
+  bigsum (numdofs kv p) (fun i => lookup (knot_insertion kv p u) j i) = 1.
+Proof.
+  intros Hok Hu0 Hu1 Hj.
+  destruct (findspan_spec_l kv p u Hok Hu0 Hu1) as [A [B [C [D E]]]].
+  unfold knot_insertion. set (k := findspan kv p u) in *.
+  rewrite <- (ki_row_sum kv p k u j A B Hj).
+  apply bigsum_ext. intros i Hi. apply ki_lookup; auto.
+Qed.
+
+Lemma knot_insertion_nonneg_l kv p u j i :
+  kv_ok kv p -> kn kv 0 <= u -> u <= kn kv (length kv - 1) ->
+  (j < S (numdofs kv p))%nat -> (i < numdofs kv p)%nat ->
+  0 <= lookup (knot_insertion kv p u) j i.
+Proof.
+  intros Hok Hu0 Hu1 Hj Hi.
+  destruct (findspan_spec_l kv p u Hok Hu0 Hu1) as [A [B [C [D E]]]].
+  unfold knot_insertion. set (k := findspan kv p u) in *.
+  rewrite ki_lookup by auto.
+  pose proof (ok_len _ _ Hok) as Hlen.
+  apply ki_entry_nonneg; auto.
+  - apply (ok_sorted _ _ Hok).
+  - lia.
+  - destruct E as [E|[E1 E2]]; [qo|]. rewrite E2, E1. apply Qcle_refl.
+Qed.
+
+(* ------------------------------------------------------------------ *)
+(* dense matrices *)
+Lemma nth_map_seq {A} (f : nat -> A) n j d : (j < n)%nat -> nth j (map f (seq 0 n)) d = f j.
+Proof.
+  intros H. rewrite (nth_indep _ d (f 0%nat)) by (rewrite map_length, seq_length; lia).
+  rewrite map_nth. rewrite seq_nth by lia. reflexivity.
+Qed.
+
+Lemma get2_gen (f : nat -> nat -> Qc) r c j i :
+  (j < r)%nat -> (i < c)%nat ->
+  get2 (map (fun j => map (fun i => f j i) (seq 0 c)) (seq 0 r)) j i = f j i.
+Proof.
+  intros Hj Hi. unfold get2. rewrite (nth_map_seq (fun j => map (fun i => f j i) (seq 0 c))) by lia.
+  apply (nth_map_seq (fun i => f j i)). lia.
+Qed.
+
+Lemma get2_dense l r c j i : (j < r)%nat -> (i < c)%nat -> get2 (dense l r c) j i = lookup l j i.
+Proof. apply (get2_gen (fun j i => lookup l j i)). Qed.
+
+Lemma get2_mmul A B r m c j i : (j < r)%nat -> (i < c)%nat ->
+  get2 (mmul A B r m c) j i = bigsum m (fun l => get2 A j l * get2 B l i).
+Proof. apply (get2_gen (fun j i => bigsum m (fun l => get2 A j l * get2 B l i))). Qed.
+
+Lemma get2_ident n j i : (j < n)%nat -> (i < n)%nat -> get2 (ident n) j i = if Nat.eqb j i then 1 else 0.
+Proof. apply (get2_gen (fun j i => if Nat.eqb j i then 1 else 0)). Qed.
+
+(* ------------------------------------------------------------------ *)
+(* insertion keeps the knot vector well-formed *)
+Lemma findspan_in kv p u :
+  kv_ok kv p -> kn kv 0 <= u -> u <= kn kv (length kv - 1) ->
+  let k := findspan kv p u in
+  (p <= k)%nat /\ (k < numdofs kv p)%nat /\ kn kv k < kn kv (S k) /\ kn kv k <= u /\ u <= kn kv (S k).
+Proof.
+  intros Hok Hu0 Hu1. destruct (findspan_spec_l kv p u Hok Hu0 Hu1) as [A [B [C [D E]]]].
+  cbv zeta. repeat split; auto.
+  destruct E as [E|[E1 E2]]; [qo|]. rewrite E2, E1. apply Qcle_refl.
+Qed.
+
+Lemma length_insert_knot kv p u : length (insert_knot kv p u) = S (length kv).
+Proof. apply length_insert_at. Qed.
+
+Lemma numdofs_insert kv p u : kv_ok kv p -> numdofs (insert_knot kv p u) p = S (numdofs kv p).
+Proof. intros Hok. pose proof (ok_len _ _ Hok). unfold numdofs. rewrite length_insert_knot. lia. Qed.
+
+Lemma insert_knot_ok kv p u :
+  kv_ok kv p -> kn kv 0 <= u -> u < kn kv (length kv - 1) ->
+  kv_ok (insert_knot kv p u) p
+  /\ kn (insert_knot kv p u) 0 = kn kv 0
+  /\ kn (insert_knot kv p u) (length (insert_knot kv p u) - 1) = kn kv (length kv - 1).
+Proof.
+  intros Hok Hu0 Hu1.
+  destruct (findspan_in kv p u Hok Hu0 (Qclt_le_weak _ _ Hu1)) as [A [B [C [D E]]]].
+  unfold insert_knot. set (k := findspan kv p u) in *.
+  pose proof (ok_len _ _ Hok) as Hlen. unfold numdofs in B.
+  pose proof (ok_sorted _ _ Hok) as Hs.
+  assert (Hk : (S (S k) <= length kv)%nat) by lia.
+  assert (Hlast := ins_last kv k u Hk).
+  split; [|split].
+  - constructor.
+    + rewrite length_insert_at. lia.
+    + intros i j Hij Hj.
+      apply (mono_chain (kn (insert_at kv k u)) (length (insert_at kv k u) - 1)); try lia.
+      intros a Ha. apply ins_sorted_step; auto. lia.
+    + rewrite !kn_ins_le by lia. apply (ok_first _ _ Hok).
+    + rewrite Hlast. rewrite length_insert_at.
+      replace (S (length kv) - p - 1)%nat with (S (length kv - p - 1)) by lia.
+      rewrite kn_ins_gt by lia. apply (ok_last _ _ Hok).
+    + rewrite length_insert_at.
+      replace (S (length kv) - p - 1)%nat with (S (length kv - p - 1)) by lia.
+      rewrite (kn_ins_gt kv k u (length kv - p - 1)) by lia.
+      replace (S (length kv) - p - 2)%nat with (length kv - p - 1)%nat by lia.
+      destruct (Nat.eq_dec (S k) (length kv - p - 1)) as [Eq|Nq].
+      * rewrite <- Eq. rewrite kn_ins_eq by lia. rewrite Eq. rewrite (ok_last _ _ Hok). exact Hu1.
+      * replace (length kv - p - 1)%nat with (S (length kv - p - 2)) at 1 by lia.
+        rewrite kn_ins_gt by lia. apply (ok_last_span _ _ Hok).
+  - apply kn_ins_le; lia.
+  - exact Hlast.
+Qed.
+
+(* ------------------------------------------------------------------ *)
+(* arbitrary refinement = product of knot insertions *)
+Definition in_dom (kv : list Qc) (u : Qc) : Prop := kn kv 0 <= u /\ u < kn kv (length kv - 1).
+
+Definition preserves (kv1 kv2 : list Qc) (p : nat) (P : list (list Qc)) : Prop :=
+  forall i x, (i < numdofs kv1 p)%nat ->
+    Nref kv1 p i x = bigsum (numdofs kv2 p) (fun j => get2 P j i * Nref kv2 p j x).
+
+Lemma refine_kv_ok us : forall kv p,
+  kv_ok kv p -> Forall (in_dom kv) us -> kv_ok (refine_kv kv p us) p.
+Proof.
+  induction us as [|u us IH]; intros kv p Hok Hd; [exact Hok|].
+  cbn [refine_kv]. inversion Hd as [|? ? [Hu0 Hu1] Hd']; subst.
+  destruct (insert_knot_ok kv p u Hok Hu0 Hu1) as [Hok' [E0 E1]].
+  apply IH; [exact Hok'|]. eapply Forall_impl; [|exact Hd'].
+  intros a [Ha0 Ha1]. unfold in_dom. rewrite E0, E1. split; assumption.
+Qed.
+
+Lemma prolongation_preserves_l us : forall kv p,
+  kv_ok kv p -> Forall (in_dom kv) us ->
+  preserves kv (refine_kv kv p us) p (prolongation_spec kv p us).
+Proof.
+  induction us as [|u us IH]; intros kv p Hok Hd i x Hi.
+  - cbn [refine_kv prolongation_spec].
+    rewrite (bigsum_one _ _ i Hi).
+    + rewrite get2_ident by lia. rewrite Nat.eqb_refl. ring.
+    + intros j Hj N. rewrite get2_ident by lia. destruct (Nat.eqb_spec j i); [lia|ring].
+  - cbn [refine_kv prolongation_spec]. inversion Hd as [|? ? [Hu0 Hu1] Hd']; subst.
+    destruct (insert_knot_ok kv p u Hok Hu0 Hu1) as [Hok' [E0 E1]].
+    assert (Hd'' : Forall (in_dom (insert_knot kv p u)) us).
+    { eapply Forall_impl; [|exact Hd']. intros a [Ha0 Ha1]. unfold in_dom. rewrite E0, E1. split; assumption. }
+    pose proof (IH _ p Hok' Hd'') as IH'. unfold preserves in IH'.
+    set (kv' := insert_knot kv p u) in *. set (kvF := refine_kv kv' p us) in *.
+    set (n := numdofs kv p) in *. set (nF := numdofs kvF p) in *.
+    assert (En : numdofs kv' p = S n) by (apply numdofs_insert; exact Hok).
+    rewrite (knot_insertion_preserves_l kv p u i x Hok Hu0 (Qclt_le_weak _ _ Hu1) Hi). fold n. fold kv'.
+    rewrite (bigsum_ext (S n) _ (fun l => bigsum nF (fun j =>
+               get2 (prolongation_spec kv' p us) j l * lookup (knot_insertion kv p u) l i * Nref kvF p j x))).
+    2:{ intros l Hl. rewrite (IH' l x) by lia. fold kvF. fold nF.
+        rewrite <- bigsum_scale. apply bigsum_ext. intros j Hj. ring. }
+    rewrite bigsum_swap. apply bigsum_ext. intros j Hj.
+    rewrite get2_mmul by lia. rewrite <- bigsum_scale_r. apply bigsum_ext. intros l Hl.
+    rewrite get2_dense by lia. reflexivity.
+Qed.
+
+Lemma prolongation_rows_sum_one_l us : forall kv p j,
+  kv_ok kv p -> Forall (in_dom kv) us -> (j < numdofs (refine_kv kv p us) p)%nat ->
+  bigsum (numdofs kv p) (fun i => get2 (prolongation_spec kv p us) j i) = 1.
+Proof.
+  induction us as [|u us IH]; intros kv p j Hok Hd Hj.
+  - cbn [refine_kv prolongation_spec] in *. rewrite (bigsum_one _ _ j Hj).
+    + rewrite get2_ident by lia. rewrite Nat.eqb_refl. reflexivity.
+    + intros i Hi N. rewrite get2_ident by lia. destruct (Nat.eqb_spec j i); [lia|reflexivity].
+  - cbn [refine_kv prolongation_spec] in *. inversion Hd as [|? ? [Hu0 Hu1] Hd']; subst.
+    destruct (insert_knot_ok kv p u Hok Hu0 Hu1) as [Hok' [E0 E1]].
+    assert (Hd'' : Forall (in_dom (insert_knot kv p u)) us).
+    { eapply Forall_impl; [|exact Hd']. intros a [Ha0 Ha1]. unfold in_dom. rewrite E0, E1. split; assumption. }
+    pose proof (IH _ p j Hok' Hd'' Hj) as IH'.
+    set (kv' := insert_knot kv p u) in *. set (n := numdofs kv p) in *.
+    assert (En : numdofs kv' p = S n) by (apply numdofs_insert; exact Hok).
+    rewrite En in IH'.
+    rewrite (bigsum_ext n _ (fun i => bigsum (S n) (fun l =>
+               get2 (prolongation_spec kv' p us) j l * lookup (knot_insertion kv p u) l i))).
+    2:{ intros i Hi. rewrite get2_mmul by lia. apply bigsum_ext. intros l Hl. rewrite get2_dense by lia. reflexivity. }
+    rewrite bigsum_swap. rewrite <- IH'. apply bigsum_ext. intros l Hl.
+    rewrite bigsum_scale.
+    pose proof (knot_insertion_rows_sum_one_l kv p u l Hok Hu0 (Qclt_le_weak _ _ Hu1) Hl) as R.
+    fold n in R.
+    match goal with |- _ * bigsum n ?f = _ => replace (bigsum n f) with 1 by (symmetry; exact R) end. ring.
+Qed.
+
+Lemma Qcmult_nonneg (a b : Qc) : 0 <= a -> 0 <= b -> 0 <= a * b.
+Proof. intros Ha Hb. replace 0 with (0 * b) by ring. apply Qcmult_le_compat_r; assumption. Qed.
+
+Lemma prolongation_nonneg_l us : forall kv p j i,
+  kv_ok kv p -> Forall (in_dom kv) us ->
+  (j < numdofs (refine_kv kv p us) p)%nat -> (i < numdofs kv p)%nat ->
+  0 <= get2 (prolongation_spec kv p us) j i.
+Proof.
+  induction us as [|u us IH]; intros kv p j i Hok Hd Hj Hi.
+  - cbn [refine_kv prolongation_spec] in *. rewrite get2_ident by lia.
+    destruct (Nat.eqb j i); [apply Qc01|apply Qcle_refl].
+  - cbn [refine_kv prolongation_spec] in *. inversion Hd as [|? ? [Hu0 Hu1] Hd']; subst.
+    destruct (insert_knot_ok kv p u Hok Hu0 Hu1) as [Hok' [E0 E1]].
+    assert (Hd'' : Forall (in_dom (insert_knot kv p u)) us).
+    { eapply Forall_impl; [|exact Hd']. intros a [Ha0 Ha1]. unfold in_dom. rewrite E0, E1. split; assumption. }
+    set (kv' := insert_knot kv p u) in *. set (n := numdofs kv p) in *.
+    assert (En : numdofs kv' p = S n) by (apply numdofs_insert; exact Hok).
+    rewrite get2_mmul by lia. apply bigsum_nonneg. intros l Hl.
+    apply Qcmult_nonneg.
+    + apply IH; auto. lia.
+    + rewrite get2_dense by lia. apply knot_insertion_nonneg_l; auto. apply Qclt_le_weak; exact Hu1.
+Qed.
+
+(* ------------------------------------------------------------------ *)
+(* composition of transfers and action on coefficient vectors (the 1-D core of
+   "level-wise evaluation = evaluation of the fine representation") *)
+Lemma preserves_compose kv1 kv2 kv3 p P Q :
+  preserves kv1 kv2 p P -> preserves kv2 kv3 p Q ->
+  preserves kv1 kv3 p (mmul Q P (numdofs kv3 p) (numdofs kv2 p) (numdofs kv1 p)).
+Proof.
+  intros H1 H2 i x Hi. rewrite (H1 i x Hi).
+  rewrite (bigsum_ext _ _ (fun l => bigsum (numdofs kv3 p) (fun j => get2 Q j l * get2 P l i * Nref kv3 p j x))).
+  2:{ intros l Hl. rewrite (H2 l x Hl). rewrite <- bigsum_scale. apply bigsum_ext. intros j Hj. ring. }
+  rewrite bigsum_swap. apply bigsum_ext. intros j Hj.
+  rewrite get2_mmul by lia. rewrite <- bigsum_scale_r. reflexivity.
+Qed.
+
+Lemma preserves_coeffs kv1 kv2 p P (c : nat -> Qc) x :
+  preserves kv1 kv2 p P ->
+  bigsum (numdofs kv1 p) (fun i => c i * Nref kv1 p i x)
+  = bigsum (numdofs kv2 p) (fun j => bigsum (numdofs kv1 p) (fun i => get2 P j i * c i) * Nref kv2 p j x).
+Proof.
+  intros H.
+  rewrite (bigsum_ext _ _ (fun i => bigsum (numdofs kv2 p) (fun j => get2 P j i * c i * Nref kv2 p j x))).
+  2:{ intros i Hi. rewrite (H i x Hi). rewrite <- bigsum_scale. apply bigsum_ext. intros j Hj. ring. }
+  rewrite bigsum_swap. apply bigsum_ext. intros j Hj. rewrite <- bigsum_scale_r. reflexivity.
+Qed.
+
+(* ------------------------------------------------------------------ *)
+(* the boolean well-formedness test implies the facts the theorems use *)
+Lemma sortedb_adjacent l : sortedb l = true -> forall i, (S i < length l)%nat -> kn l i <= kn l (S i).
+Proof.
+  induction l as [|a t IH]; intros H i Hi; [cbn in Hi; lia|].
+  destruct t as [|b t']; [cbn in Hi; lia|].
+  cbn [sortedb] in H. apply andb_prop in H. destruct H as [H1 H2].
+  destruct i as [|i].
+  - unfold kn. cbn. apply qleb_iff. exact H1.
+  - unfold kn in *. cbn [nth]. apply (IH H2 i). cbn [length] in *. lia.
+Qed.
+
+Lemma sortedb_sorted l : sortedb l = true -> sorted l.
+Proof.
+  intros H i j Hij Hj.
+  apply (mono_chain (kn l) (length l - 1)); try lia.
+  intros a Ha. apply sortedb_adjacent; [exact H|lia].
+Qed.
+
+Lemma open_kv_ok kv p : open_kv kv p = true -> kv_ok kv p.
+Proof.
+  unfold open_kv. intros H.
+  repeat (apply andb_prop in H; let H' := fresh "H" in destruct H as [H H']).
+  apply Nat.leb_le in H.
+  constructor.
+  - exact H.
+  - apply sortedb_sorted. assumption.
+  - rewrite forallb_forall in H4. apply qeqb_iff. apply H4. apply in_seq. lia.
+  - rewrite forallb_forall in H3. replace (length kv - p - 1)%nat with (length kv - 1 - p)%nat by lia.
+    apply qeqb_iff. apply H3. apply in_seq. lia.
+  - apply qltb_iff. assumption.
 Qed.
